@@ -154,6 +154,12 @@ fn check_case(case: &Case, ctx: &mut Ctx) -> PResult {
         // the encoded variable itself: its bound may be written back as the integer range it contains ([-1.5, 4.2] ->
         // [-1, 4]); everything else about it, and all other variables, unchanged
         for (k, o) in kept.iter_mut().zip(orig.iter()) {
+            // notes an implementation leaves on the encoded variable (parameters, description) are not in the statement
+            if k.id == id && o.id == id && (k.parameters != o.parameters || k.description != o.description) {
+                ctx.label("encoded-variable-annotated");
+                k.parameters = o.parameters.clone();
+                k.description = o.description.clone();
+            }
             if k.id == id && o.id == id && k.bound != o.bound {
                 if let (Some(kb), Some(ob)) = (&k.bound, &o.bound) {
                     if kb.lower.ceil() == ob.lower.ceil() && kb.upper.floor() == ob.upper.floor() && kb.lower >= ob.lower && kb.upper <= ob.upper {
